@@ -13,7 +13,12 @@ def main():
     modname, tier, seed = sys.argv[1], sys.argv[2], int(sys.argv[3])
     shard = pickle.load(sys.stdin.buffer)
     mod = importlib.import_module(modname)
-    rep = mod.run_shard(shard, tier, seed)
+    from vmc.core.report import ViolationStorm
+
+    try:
+        rep = mod.run_shard(shard, tier, seed)
+    except ViolationStorm as e:
+        rep = e.report
     out = sys.__stdout__.buffer
     out.write(b"\n@@REPORT@@" + pickle.dumps(rep.compact()))
     out.flush()
